@@ -121,6 +121,23 @@ def run_check(pid, tier, seed, procs, t0):
     cross = tier == "thorough"
     targets = [c.target for c in cts]
     results = verify_many(targets, timeout_ms, cross, procs=min(procs, max(1, len(targets)))) if targets else []
+    # ---- a refutation must be reproducible: VC generation uses time-capped internal entailment checks, so under heavy
+    #      load an obligation can come out in a weaker form; every target with a refuted obligation is verified once
+    #      more, alone; an obligation that is discharged on the second run is counted as discharged (noted as unstable)
+    again = [r["target"] for r in results if any(o["verdict"] == "refuted" and o["kind"] != "finding" for o in r["obligations"])]
+    if again:
+        second = {r["target"]: r for r in verify_many(again, timeout_ms, cross, procs=1)}
+        for r in results:
+            r2 = second.get(r["target"])
+            if r2 is None or r2["status"] != "ok":
+                continue
+            v2 = {}
+            for o in r2["obligations"]:
+                v2.setdefault(o["name"], []).append(o["verdict"])
+            for o in r["obligations"]:
+                if o["verdict"] == "refuted" and o["kind"] != "finding" and v2.get(o["name"]) and all(v == "proved" for v in v2[o["name"]]):
+                    o["verdict"] = "proved"
+                    o["note"] = (o.get("note") or "") + " | unstable: refuted in the parallel run, discharged when verified alone"
     # ---- lemmas (formulas over contracts/spec only)
     lemma_obs = []
     if lemmas:
